@@ -19,7 +19,6 @@
 package commonmark
 
 import (
-	"bytes"
 	"fmt"
 	"html"
 	"io"
@@ -407,97 +406,37 @@ func (r *renderState) postInline(source []byte, inline *Inline) bool {
 // It cannot use a conventional HTML parser,
 // since raw HTML in Markdown may be incomplete or start in the middle of a tag.
 func (r *renderState) filterRaw(rawHTML []byte) {
-	const (
-		copyState = iota
-		commentState
-		piState
-		declState
-		cdataState
-	)
-	state := copyState
+	// Every "<name" and "</name" is shown to the predicate,
+	// wherever it occurs (as cmark-gfm's tagfilter does):
+	// whether a '<' sits inside a comment, a declaration or a quoted attribute value
+	// depends on everything an HTML tokenizer has read before,
+	// including earlier raw HTML nodes and lines of the same block,
+	// so no decision made from this chunk alone can be relied upon to hide a tag.
+	// Escaping a '<' that the tokenizer would not have taken for a tag is harmless.
 	copyStart := 0
 	for i := 0; i < len(rawHTML); {
-		switch state {
-		case copyState:
-			if rawHTML[i] == '<' {
-				switch {
-				case hasBytePrefix(rawHTML[i:], htmlCommentPrefix):
-					state = commentState
-					i += len(htmlCommentPrefix)
-					// An HTML tokenizer lets a comment end right where it starts.
-					switch {
-					case hasBytePrefix(rawHTML[i:], ">"):
-						state = copyState
-						i += len(">")
-					case hasBytePrefix(rawHTML[i:], "->"):
-						state = copyState
-						i += len("->")
-					}
-				case hasBytePrefix(rawHTML[i:], "<!") || hasBytePrefix(rawHTML[i:], processingInstructionPrefix):
-					// For an HTML tokenizer, declarations, CDATA sections
-					// and processing instructions all end at the next '>'.
-					state = declState
-					i += len("<!")
-				case hasBytePrefix(rawHTML[i:], "</") && (i+2 >= len(rawHTML) || !isASCIILetter(rawHTML[i+2])):
-					// Not an end tag: either "</>" or a comment up to the next '>'.
-					state = declState
-					i += len("</")
-				case i+1 >= len(rawHTML) || !(isASCIILetter(rawHTML[i+1]) || rawHTML[i+1] == '/'):
-					// Not markup: a tokenizer treats this '<' as text.
-					i++
-				default:
-					tagNameStart := i + 1
-					tagEnd := len(rawHTML)
-					if j := bytes.IndexByte(rawHTML[tagNameStart:], '>'); j >= 0 {
-						tagEnd = tagNameStart + j + len(">")
-					}
-					tagNameEnd := tagNameStart + htmlTagNameEnd(rawHTML[tagNameStart:tagEnd])
-					tagName := maybeLower(rawHTML[tagNameStart:tagNameEnd], &r.lowerBuf)
-					if r.FilterTag(tagName) {
-						r.dst = append(r.dst, rawHTML[copyStart:i]...)
-						r.dst = append(r.dst, "&lt;"...)
-						copyStart = tagNameStart
-						// With its '<' escaped, the rest of the tag is text,
-						// so a '<' in it can start a tag of its own.
-						tagEnd = tagNameEnd
-					}
-					i = tagEnd
-				}
-			} else {
-				i++
-			}
-		case commentState:
-			if hasBytePrefix(rawHTML[i:], htmlCommentSuffix) {
-				state = copyState
-				i += len(htmlCommentSuffix)
-			} else if hasBytePrefix(rawHTML[i:], "--!>") {
-				state = copyState
-				i += len("--!>")
-			} else {
-				i++
-			}
-		case piState:
-			if hasBytePrefix(rawHTML[i:], processingInstructionSuffix) {
-				state = copyState
-				i += len(processingInstructionSuffix)
-			} else {
-				i++
-			}
-		case declState:
-			if rawHTML[i] == '>' {
-				state = copyState
-			}
+		if rawHTML[i] != '<' || i+1 >= len(rawHTML) {
 			i++
-		case cdataState:
-			if hasBytePrefix(rawHTML[i:], cdataSuffix) {
-				state = copyState
-				i += len(cdataSuffix)
-			} else {
-				i++
-			}
-		default:
-			panic("unreachable")
+			continue
 		}
+		tagNameStart := i + 1
+		switch {
+		case isASCIILetter(rawHTML[tagNameStart]):
+		case rawHTML[tagNameStart] == '/' && tagNameStart+1 < len(rawHTML) && isASCIILetter(rawHTML[tagNameStart+1]):
+			// End tag: the predicate sees an empty name, as before.
+		default:
+			// Not a tag: a tokenizer treats this '<' as text or as the start of a comment.
+			i++
+			continue
+		}
+		tagNameEnd := tagNameStart + htmlTagNameEnd(rawHTML[tagNameStart:])
+		tagName := maybeLower(rawHTML[tagNameStart:tagNameEnd], &r.lowerBuf)
+		if r.FilterTag(tagName) {
+			r.dst = append(r.dst, rawHTML[copyStart:i]...)
+			r.dst = append(r.dst, "&lt;"...)
+			copyStart = tagNameStart
+		}
+		i = tagNameEnd
 	}
 
 	r.dst = append(r.dst, rawHTML[copyStart:]...)
